@@ -14,6 +14,8 @@ from checks.c17 import ref_sanitise, is_reserved
 S = load()
 
 PROPERTY = "C18"
+LEVEL_TEXT = 'Exploration with a name model over histories, directed table/vector arithmetic naming and aggregate/window output naming (bipartite matching up to numeric suffixes).'
+LEVEL_NOTE = 'Unruled operations are adopted, not asserted.'
 DESIGN_REF = "DESIGN.md §5 C18"
 ENGINE = "world"
 TECHNIQUE = "model-based property testing: operation histories with a name model (ruled operations are checked against the rule applied to the operands' names; unruled ones are adopted), plus directed generators for table arithmetic naming and aggregate / window output naming"
